@@ -124,7 +124,7 @@ func buildFixtures(seed uint64) *Fix {
 	}
 	// more distinct public keys in flight (verify-only): a bounded table of
 	// recently seen keys must meet more keys than it holds
-	for k := 0; k < 6; k++ {
+	for k := 0; k < 22; k++ {
 		var sd [48]byte
 		r.Bytes(sd[:])
 		d, err := dilithium.NewDilithiumFromSeed(sd)
@@ -263,7 +263,7 @@ type Call struct {
 
 var callKinds = []string{
 	"xverify", "xverifyw", "xaddr", "xlegaddr", "xvalid", "xlegvalid", "xdesc", "xdescnew",
-	"dverify", "dopen", "daddr", "dvalid", "dsign", "dseal", "dget", "dextract",
+	"dverify", "dverifymany", "dopen", "daddr", "dvalid", "dsign", "dseal", "dget", "dextract",
 	"m2seed", "m2ext", "seed2m", "ext2m",
 	"dnewseed", "dnewhex", "dnewmnem", "dnewrand",
 	"psign", "pset", "pget", "xnew", "xnewext",
@@ -384,6 +384,14 @@ func (f *Fix) exec(c Call, priv *xmss.XMSS, h *held) (res string) {
 	case "dverify":
 		s := &f.DSig[a%len(f.DSig)]
 		return digestOf(bb(dilithium.Verify(f.Msgs[s.msg], s.sig, &f.DilPK[s.key])))
+	case "dverifymany":
+		// a verifier working through a batch of signatures from many signers
+		var verdicts []byte
+		for j := 0; j < 7; j++ {
+			s := &f.DSig[(a+j*(1+b%5))%len(f.DSig)]
+			verdicts = append(verdicts, bb(dilithium.Verify(f.Msgs[s.msg], s.sig, &f.DilPK[s.key]))...)
+		}
+		return digestOf(verdicts)
 	case "dopen":
 		return digestOf(h.bytes(c.K, dilithium.Open(f.DSeal[a%len(f.DSeal)], &f.DilPK[b%len(f.DilPK)])))
 	case "daddr":
